@@ -601,6 +601,13 @@ def main_replay(pid, path):
         log(out[-3000:])
         return 2
     d = json.load(open(path))
+    if isinstance(d, dict) and d.get('cases') and not d.get('case'):      # a corpus file: replay every case of it
+        worst = 0
+        for k, c in enumerate(d['cases']):
+            tmp = os.path.join(wd, 'replay_case_%d.json' % k)
+            json.dump({'case': c}, open(tmp, 'w'))
+            worst = max(worst, main_replay(pid, tmp))
+        return worst
     case = d.get('case') or (d.get('broken', [{}])[0].get('first', [{}])[0].get('case'))
     if not case:
         print('replay file names no concrete case:', json.dumps(d.get('broken'), indent=1)[:3000])
